@@ -694,6 +694,16 @@ fn with_mapper<T>(
     let data = std::fs::read(path).ok()?;
     let file = AsepriteFile::read(&data[..]).ok()?;
     let palette = file.palette()?;
+    // Another mapper over the SAME palette, with other options, is created and used first and stays alive: what one
+    // mapper answers must not depend on mappers made from the palette before it.
+    let earlier = PaletteMapper::new(
+        palette,
+        MappingOptions {
+            failure: (failure as u8) ^ 0x5a,
+            transparent: if transparent == -1 { Some(0x33) } else { None },
+        },
+    );
+    let _ = earlier.lookup(1, 2, 3, 255);
     let mapper = PaletteMapper::new(
         palette,
         MappingOptions {
@@ -705,7 +715,9 @@ fn with_mapper<T>(
             },
         },
     );
-    Some(f(&mapper))
+    let r = f(&mapper);
+    drop(earlier);
+    Some(r)
 }
 
 /// Build a `w` x `h` image from exactly-packed pixels.
